@@ -396,6 +396,20 @@ func TestReplay(t *testing.T) {
 		runPkgOpts(context.Background(), t, r, &pc)
 		return
 	}
+	if strings.Contains(evid.ReplayTest(), "TestCLIConfiguredOptions") {
+		var cc CLICase
+		ok, err := evid.ReplayCase(&cc)
+		if !ok {
+			t.Skip("no VERIF_REPLAY")
+		}
+		if err != nil {
+			t.Fatal(err)
+		}
+		r := evid.R()
+		defer r.Begin(t)()
+		runCLI(context.Background(), t, r, &cc)
+		return
+	}
 	var c Case
 	ok, err := evid.ReplayCase(&c)
 	if !ok {
